@@ -17,7 +17,7 @@ import numpy as np
 import scipp as sc
 
 from rv.oracle import si
-from rv.oracle.disk import LD, TWO_PI, Disk, ratio_distance, slit_set_geometry
+from rv.oracle.disk import LD, PI, TWO_PI, Disk, ratio_distance, slit_set_geometry
 from rv.trace import Tracer
 
 ID = 'C10'
@@ -100,6 +100,21 @@ def _bits(v):
 def _scalar(v):
     """0-d scipp variable -> long double in SI."""
     return LD(si.si(v)[()])
+
+
+def _describe_var(v):
+    try:
+        return {'dims': list(v.dims), 'shape': list(v.shape), 'unit': str(v.unit), 'values': np.asarray(v.values).ravel()[:8].tolist()}
+    except Exception:  # noqa: BLE001
+        return repr(v)
+
+
+def _is_time(unit):
+    try:
+        sc.scalar(1.0, unit=unit).to(unit='s')
+        return True
+    except Exception:  # noqa: BLE001
+        return False
 
 
 def disk_of(ch):
@@ -469,6 +484,58 @@ class Monitors:
         slot[which] = ev.result
         if 'open' in slot and 'close' in slot:
             self.judge_direct_pair(ch, fp, slot)
+
+    def on_angle_at_beam(self, ev):
+        """Direct calls of time_offset_angle_at_beam (depth 0): at each returned time offset the requested disk
+        angle is under the beam, every angle is reported once per requested rotation (-1 .. n-1), in the documented
+        layout (rotation-major along the last dimension; a scalar angle gives one entry per rotation)."""
+        ctx = self.ctx
+        if ev.depth != 0:
+            return
+        ch, angle, nrep = ev.args.get('self'), ev.args.get('angle'), ev.args.get('n_repetitions')
+        case = dict(self.case, angle=_describe_var(angle), n_repetitions=nrep)
+        if ev.exc is not None:
+            ctx.violation('angle_at_beam.raised', f'time_offset_angle_at_beam raised {type(ev.exc).__name__}: '
+                          f'{ev.exc}'[:300], case, exc=type(ev.exc).__name__)
+            return
+        try:
+            disk, _ = disk_of(ch)
+            a = np.atleast_1d(_rad(angle))
+            res = ev.result
+            dt = np.asarray(si.si(res), dtype=LD)
+            n_last = a.shape[-1]
+            want_last = n_last * (int(nrep) + 1)
+            if dt.shape[:-1] != a.shape[:-1] or dt.shape[-1] != want_last:
+                ctx.violation('angle_at_beam.shape', f'result shape {dt.shape} for angles of shape {a.shape} and '
+                              f'{nrep} repetitions (expected last size {want_last})', case)
+                return
+            if res.unit.to_dict() != sc.Unit('s').to_dict() and not _is_time(res.unit):
+                ctx.violation('angle_at_beam.unit', f'result unit {res.unit} is not a time', case)
+                return
+            # element [.., r * n_last + j] belongs to angle [.., j]
+            want = np.concatenate([a] * (int(nrep) + 1), axis=-1)
+            off = np.mod(disk.alpha(dt) - want + PI, TWO_PI) - PI
+            mag = (abs(_scalar(ch.beam_position)) + abs(_scalar(ch.phase)) + LD(np.max(np.abs(a)))
+                   + TWO_PI * (int(nrep) + 2))
+            tol = K_TOL * EPS * mag
+            worst = float(np.max(np.abs(off)))
+            ctx.dev('angle_at_beam: |disk angle under the beam - requested angle| / bound', worst / float(tol))
+            ctx.event('angle_at_beam')
+            if angle.ndim == 0:
+                ctx.event('angle_at_beam.scalar_angle')
+            if worst > tol:
+                ctx.violation('angle_at_beam.value', f'at the returned time offset the disk angle under the beam '
+                              f'differs from the requested angle by {worst:.3g} rad (bound {float(tol):.3g})', case)
+                return
+            # the repetitions are distinct rotations: consecutive copies of one angle are one period apart
+            if int(nrep) >= 1:
+                per = TWO_PI / abs(disk.omega)
+                d = np.abs(np.diff(dt.reshape(*dt.shape[:-1], int(nrep) + 1, n_last), axis=-2)) - per
+                if float(np.max(np.abs(d))) > float(2 * tol / abs(disk.omega)):
+                    ctx.violation('angle_at_beam.repetitions', 'repetitions of one angle are not one rotation '
+                                  f'period apart (worst {float(np.max(np.abs(d))):.3g} s)', case)
+        except Exception:  # noqa: BLE001
+            ctx.oracle_error('C10 angle_at_beam')
 
     def judge_direct_pair(self, ch, fp, slot):
         """The (open, close) arrays last observed for this chopper, on the disk."""
@@ -1093,6 +1160,7 @@ def requirements(tier):
         'pair.direct': 100, 'intervals.direct': 1000, 'open_duration': 100,
         'cascade.npulses=1': 40, 'cascade.npulses=2': 40, 'cascade.npulses=3': 40,
         'cascade.npulses=4': 40, 'intervals.cascade': 2000,
+        'angle_at_beam': 300, 'angle_at_beam.scalar_angle': 100,
     }
     if big:
         ev = {k: v * 20 for k, v in ev.items()}
@@ -1142,6 +1210,26 @@ def drive(case, ch, ctx, Chopper, sig, pulses, forbidden=False):
             pass
         if decided:
             ctx.case((name, *sig))
+    # the documented building block, called the way a user would: any disk angle (scalar or array, deg or rad,
+    # several turns), default and explicit numbers of rotations
+    k = int(case.get('index', 0)) if isinstance(case.get('index', 0), int) else 0
+    import zlib
+    rng_a = np.random.Generator(np.random.PCG64([zlib.crc32(repr(sig).encode()), 10, 77]))
+    for form in range(3):
+        unit = 'deg' if (form + k) % 2 == 0 else 'rad'
+        scale = 360.0 if unit == 'deg' else 2 * np.pi
+        if form == 0:
+            ang = sc.scalar(float(rng_a.uniform(-2, 2)) * scale, unit=unit)
+        elif form == 1:
+            ang = sc.array(dims=['slit'], values=rng_a.uniform(-1, 2, size=int(rng_a.integers(1, 6))) * scale, unit=unit)
+        else:
+            ang = sc.array(dims=['a', 'b'], values=rng_a.uniform(0, 1, size=(2, 3)) * scale, unit=unit)
+        kw = {} if form == 1 and k % 2 else {'n_repetitions': int(rng_a.integers(1, 4))}
+        try:
+            ch.time_offset_angle_at_beam(angle=ang, **kw)
+        except Exception:  # noqa: BLE001  (judged by the monitor)
+            pass
+        ctx.case(('time_offset_angle_at_beam', form, unit, *sig))
     for npulses in pulses:
         try:
             Chopper.from_disk_chopper(ch, fp, npulses)
@@ -1177,7 +1265,8 @@ def run(shard, ctx):
     tr.watch(Chopper.from_disk_chopper, 'from_disk_chopper', on_start=mon.on_cascade_start,
              on_return=mon.on_cascade)
     # diagnosis only (event counts in the evidence): the helpers the property anchors
-    for nm in ('_source_phase_factor', 'time_offset_angle_at_beam', '_apply_angle_repetitions'):
+    tr.watch(DiskChopper.time_offset_angle_at_beam, 'time_offset_angle_at_beam', on_return=mon.on_angle_at_beam)
+    for nm in ('_source_phase_factor', '_apply_angle_repetitions'):
         if hasattr(DiskChopper, nm):
             tr.watch(getattr(DiskChopper, nm), nm)
     for nm in ('_check_edges', '_check_edge_overlap', '_get_edges_from_nexus',
